@@ -403,7 +403,7 @@ class P(Prop):
         (M, "TV.C02.operate_assign_new", "T3b: 'lhs=e' with a new name stores the value under lhs, returns nothing, changes nothing else"),
         (M, "TV.C02.operate_assign_existing", "T3c: 'lhs=e' with an existing feature replaces that column only"),
         (M, "TV.C02.operate_assign_existing_number", "T3c': 'lhs=<number>' overwrites an existing feature (fix 79feaf2)"),
-        (M, "TV.C02.operate_assign_coordinate_partial", "T3d: 'x=e' / 'y=e' / 'z=e' with a vector value writes the coordinate and leaves the feature table untouched (fix 3613032)"),
+        (M, "TV.C02.operate_assign_coordinate", "T3d: 'x=e' / 'y=e' / 'z=e' writes the value of e - a vector, or a number at every observation (fix 144a468) - to the coordinate and leaves the feature table untouched (fix 3613032)"),
         (M, "TV.C02.operate_show_value", "T3: composition - parse the printed statement with makeRPN's table, run the machine, purge: value = tree semantics, track unchanged"),
         (M, "TV.C02.makeRPN_chars_show", "T2': character-level makeRPN (the definition the driver runs, fuel = string length) returns the postfix form of every printed tree with plain atoms"),
         (M, "TV.C02.operate_string_value", "T3': from the rewritten string '#output=e' on (makeRPN on characters, __double_prime, stack machine, fetch, purge) operate returns the tree semantics and leaves the track as it was"),
@@ -412,7 +412,7 @@ class P(Prop):
         (M, "TV.C02.operate_string_pointwise", "end to end on the model: operate on the rewritten string '#output=e' returns the pointwise value of the tree and leaves the track unchanged"),
         (M, "TV.C02.operator_objects_agree", "T4: operator objects applied directly return the tree semantics of the one-node expression (a.b, a.number, number.a, f{a})"),
     ]
-    partial = ["operate_assign_coordinate_partial: proved for right-hand sides whose value is a vector; a pure number on the right of x=/y=/z= raises KeyError in the code (known finding coordinate-assigned-constant)"]
+    partial = []
     open_statements = [
         "the character-level rewriting chain (preprocess: replace chains, reflexive operators, unary signs, f( -> f@(, '#output = ' prefix with its spaces) is tied to the theorems by the correspondence only (streams str/expr), not by a theorem; the theorems start from the rewritten string",
         "floating point: the laws of T5 (x*(1/s)=x/s, (1/x)*s=s/x) hold in exact arithmetic (shown for rationals with NaN) but only up to rounding for IEEE doubles; agreement of the computed doubles with ordinary arithmetic is sampled by the transfer check (rel. 1e-9) against the independent Python oracle",
@@ -556,9 +556,11 @@ class P(Prop):
             return ["every tree of depth <= 2 over names {a,b,x,t,idx}, literals {0,1,2,0.5}, operators + - * / ^ < >, unary minus and the 12 functions, "
                     "x 4 left-hand sides (none, new, existing, coordinate) x 2 sign styles, on 3 tracks each",
                     "every tree of depth <= 3 over {a,b,2} with + - * / ^ < >, unary minus, D, SUM (about 40 k programmes), one track each",
-                    "parser: the postfix form of every one of those strings"]
+                    "parser: the postfix form of every one of those strings",
+                    "every 'l<(p q r)', 'l>(p q r)' (parenthesis directly after a comparison) with l in {a,2,x,D{b}}, q in + - * / ^ < >, p,r in {a,b,1}, x 3 left-hand sides, and the mirrored '(p q r)<l'"]
         return ["every tree of depth <= 2 over names {a,b,x,t,idx}, literals {0,1,2,0.5}, operators + - * / ^ < >, unary minus and the 12 functions, "
                 "x 4 left-hand sides (none, new, existing, coordinate), one track each",
+                "every 'l<(p q r)', 'l>(p q r)' (parenthesis directly after a comparison) with l in {a,2,x,D{b}}, q in + - * / ^ < >, p,r in {a,b,1}, x 3 left-hand sides, and the mirrored '(p q r)<l'",
                 ]
 
     LHS = [None, "c", "a", "x"]
@@ -584,6 +586,16 @@ class P(Prop):
             for lhs in self.LHS:
                 for rep in range(3 if thorough else 1):
                     emit(t, lhs, bare=rng.random() < 0.5)
+        # a parenthesis directly after a comparison operator (fix 6716f85): every `l o (p q r)` and `(p q r) o l`
+        for o in "<>":
+            for l in (["var", "a"], ["num", "2"], ["var", "x"], ["call", "D", ["var", "b"]]):
+                for q in BINOPS:
+                    for pl in (["var", "a"], ["var", "b"], ["num", "1"]):
+                        for pr in (["var", "a"], ["var", "b"], ["num", "1"]):
+                            inner = ["par", ["bin", q, pl, pr]]
+                            for lhs in (None, "c", "y"):
+                                emit(["bin", o, l, inner], lhs, bare=False)
+                            emit(["bin", o, inner, l], None, bare=False)
         # depth 3 over a small alphabet
         small = self.trees_upto(3, [["var", "a"], ["var", "b"], ["num", "2"]], BINOPS, ["neg", "D", "SUM"])
         for t in (small if thorough else rng.sample(small, 12000)):
@@ -923,13 +935,9 @@ class P(Prop):
 
     # ---------------------------------------------------------------- known findings
     def classify(self, case, impl_out, msg):
-        if case.get("kind") != "expr":
-            return None
-        s = case["expr"].replace(" ", "")
-        if ">(" in s or "<(" in s:
-            return "parenthesis-after-comparison"
-        if case["lhs"] in ("x", "y", "z") and not names_of(case["tree"]):
-            return "coordinate-assigned-constant"
+        """no known-finding class: 'a>(b+1)' (fix 6716f85) and 'x=3' (fix 144a468) are ordinary inputs now
+        (d2 scope with lhs x, 'par' nodes and comparison-under-comparison in the random / depth-3 streams,
+        witnesses in corpus/C02/d21-*, d22-*)"""
         return None
 
     # ---------------------------------------------------------------- shrinking / search
